@@ -111,6 +111,40 @@ class Mon:
             hook(fs)
 
 
+class DirectRun:
+    """NestedSampler / ImportanceNestedSampler constructed and run without
+    FlowSampler; exposes what the result digest reads."""
+
+    def __init__(self, model, job, kwargs):
+        from nessai.samplers.importancesampler import ImportanceNestedSampler
+        from nessai.samplers.nestedsampler import NestedSampler
+
+        cls = ImportanceNestedSampler if job.get("ins") else NestedSampler
+        self.ns = cls(model, output=job["output"], **kwargs)
+
+    def run(self, **kw):
+        self.ns.initialise()
+        self.ns.nested_sampling_loop()
+
+    @property
+    def nested_samples(self):
+        ns = self.ns
+        return ns.samples if hasattr(ns, "samples") and type(
+            ns).__name__ == "ImportanceNestedSampler" else np.array(
+                ns.nested_samples)
+
+    @property
+    def log_evidence(self):
+        return self.ns.log_evidence
+
+    @property
+    def log_evidence_error(self):
+        return self.ns.log_evidence_error
+
+    logZ = log_evidence
+    logZ_error = log_evidence_error
+
+
 class _WrappedPool:
     """Thin wrapper around a process pool (as a logging or MPI adapter would
     be): map / close / terminate / join only."""
@@ -1005,6 +1039,8 @@ def install_ns_stop(mon):
         conds = st["conds"]
         tol = self.tolerance
         rec["n"] = max(rec.get("n", 0), len(conds))
+        if conds and not rec.get("conds"):
+            rec["conds"] = [[int(i), float(c)] for i, c in conds]
         rec["tolerance"] = float(tol)
         rec["max_iteration"] = None if not np.isfinite(self.max_iteration) \
             else int(self.max_iteration)
@@ -1166,6 +1202,9 @@ def install_ins_stop(mon):
         any_ = bool(self._stop_any)
         crit = st["crit"]
         start = st["start_iteration"]
+        if st["all"] and not rec.get("values"):
+            rec["values"] = [{k: (v if np.isfinite(v) else repr(v))
+                              for k, v in d.items()} for d in st["all"]]
         rec.update({"K": K, "tolerance": tol, "any": any_,
                     "criteria": list(self.stopping_criterion),
                     "n_recorded": len(crit),
